@@ -3,7 +3,7 @@
    Metadata lives in a heap of identified mutable objects (ColumnMetadata, destination sets,
    column dicts, TableMetadata); a frame owns the objects reachable from its info record. *)
 From PdV.Model Require Import Heap.
-From PdV Require Import HeapProofs HeapTyped.
+From PdV Require Import HeapProofs HeapTyped HeapMutate.
 
 (* the metadata of a pandas result consists of NEW objects only, and building it leaves every
    existing object untouched *)
@@ -104,6 +104,13 @@ Theorem C05_rewrap_typed :
     wf_heap h -> rewrap h i nn nu = (h', Some r) -> typed h' r.
 Proof. exact rewrap_typed. Qed.
 Print Assumptions C05_rewrap_typed.
+
+(* and every mutation through a frame (unit, destination, name, column removed / added) leaves that
+   frame's metadata well-formed *)
+Theorem C05_mutate_typed :
+  forall h a m, wf_heap h -> typed h a -> typed (mutate h a m) a.
+Proof. exact mutate_typed. Qed.
+Print Assumptions C05_mutate_typed.
 
 (* ... and on a well-formed source the destinations the result starts from (C05_header) are the
    contents of the source's own set object *)
